@@ -13,6 +13,7 @@ class StrictPdoDevice:
     def __init__(self, com, mapi, subs=(3, 5, 6), prior="blank", abort_cls=Exception):
         self.com, self.map, self.log, self.refused = com, mapi, [], []
         self.abort_cls = abort_cls
+        self.fail_at, self.ndl = None, 0          # fault injection: the k-th write is answered with an abort (once)
         self.store = {(com, 0): bytes([max((2,) + tuple(subs))]), (com, 1): struct.pack("<L", 0x80000000 | 0x181),
                       (com, 2): b"\xff", (mapi, 0): b"\x00"}
         for s in subs:
@@ -47,6 +48,10 @@ class StrictPdoDevice:
 
     def download(self, i, si, data, force_segment=False):
         data = bytes(data)
+        self.ndl += 1
+        if self.fail_at is not None and self.ndl == self.fail_at:
+            self.fail_at = None
+            raise self.abort_cls(0x08000022)         # e.g. the device is in a state in which it refuses the access
         self.log.append((i, si, data, self.valid(), self.store[(self.map, 0)][0]))
         if (i, si) not in self.store:
             self._refuse(i, si, data, 0x06090011, "no such sub")
